@@ -314,6 +314,7 @@ fn wait_conn_end(ports: &[u16]) -> bool {
             return true;
         }
         if Instant::now() > deadline {
+            missed_deadline();
             return false;
         }
         std::thread::sleep(Duration::from_micros(300));
@@ -381,6 +382,9 @@ pub fn run_gen(args: &Args, mut out: Out) {
     let server = start_server(&executor, small, true, 50);
     let server_nocache = start_server(&executor, small, false, 50);
     for sid in 1..=n {
+        if give_up() {
+            break;
+        }
         let srv = if r.gen_bool(0.1) { &server_nocache } else { &server };
         // one history in eight is "fat": 9..12 requests with heads of about 1 KiB, so that a pipelined batch is larger
         // than the connection's 8 KiB buffer and a head straddles its end
@@ -504,7 +508,7 @@ pub fn run_limits(args: &Args, mut out: Out) {
                                     }
                                 }
                                 sid += 1;
-                                if !out.wants(sid) {
+                                if !out.wants(sid) || give_up() {
                                     continue;
                                 }
                                 let body_all = body_bytes(sid, 0, send_len);
